@@ -34,6 +34,7 @@
 EXTENDS Naturals, FiniteSets, TLC
 
 CONSTANTS MaxInst, Subs,
+          MaxExec, MaxEmit,     \* bounds of the counters (state constraint Bounded)
           Dev_BoxKeptAfterRemove, Dev_IdZeroAfterMainRemoved,
           Dev_TerminateKeepsObjects, Dev_FailedAddLeavesEntry
 
@@ -206,4 +207,7 @@ OthersUnaffected ==
              (idOf'[k] = idOf[k] /\ term'[k] = term[k] /\ subs[k] \subseteq subs'[k] /\ told'[k] = told[k])]_vars
 
 NoCrash == ~crashed
+
+\* state constraint: the invocation and event counters only matter up to a small bound
+Bounded == \A k \in Inst : exec[k] <= MaxExec /\ \A s \in Subs : got[k][s] <= MaxEmit
 =============================================================================
